@@ -25,7 +25,16 @@ struct TestExc : std::exception { int who; explicit TestExc(int w) : who(w) {} }
 // ---- payload: int (default) or, with -DPAYLOAD_BIG, a 64-byte tracked object: every byte carries the resolver's
 // identity (integrity is checked by every reader), copies are counted (the library never needs to copy a payload that
 // is constructed in place and read by reference), and it does not fit the small buffers of type-erasing wrappers
-#ifdef PAYLOAD_BIG
+#if defined(PAYLOAD_REF)
+// future<int&>: the resolver passes an lvalue, the future stores its address (state value_ref)
+using Payload = int &;
+static int g_refs[64];
+static const bool g_refs_init = [] { for (int i = 0; i < 64; i++) g_refs[i] = i; return true; }();
+#define MAKE_ARG(who) g_refs[who]
+static int who_of(int v) { return v; }
+static long payload_copies() { return 0; }
+#elif defined(PAYLOAD_BIG)
+#define MAKE_ARG(who) who
 struct Big {
     int who;
     unsigned char pad[60];
@@ -43,6 +52,7 @@ static int who_of(const Big &b) {
 }
 static long payload_copies() { return Big::copies.load(); }
 #else
+#define MAKE_ARG(who) who
 using Payload = int;
 static int who_of(int v) { return v; }
 static long payload_copies() { return 0; }
@@ -54,6 +64,7 @@ struct FProbe : cocls::future<Payload> {
     static auto state_mp() { return &FProbe::_state; }
     static auto value_mp() { return &FProbe::_value; }
     static auto exc_mp() { return &FProbe::_exception; }
+    static auto ptr_mp() { return &FProbe::_ptr_value; }
 };
 struct PProbe : cocls::promise<Payload> {
     static auto owner_mp() { return &PProbe::_owner; }
@@ -108,9 +119,11 @@ struct World {
     // documented as equivalent (promise(x) / set_value(x) / set_exception(e) / unhandled_exception();
     // subscribe(awaiter*) / co_awaiter::await_suspend(resume_fn, void*)); form = header "form" + index of the thread
     int form = 0;
+    bool bound_dead = false;
     bool bind = false;      // the (single) value resolver goes through promise::bind(args...)()
     long copies0 = 0;
     std::function<bool()> call_bound;
+    std::function<void()> drop_bound;
     struct FnCtx { World *world; Rec *rec; };
     std::map<std::string, std::unique_ptr<cocls::co_awaiter<cocls::future<Payload>>>> fnaw;   // cb waiters, form 1
     std::map<std::string, FnCtx> fnctx;
@@ -174,9 +187,11 @@ static cocls::async<void> hv_waiter(World &w, Rec &r) {
     r.done = true;
 }
 
+#ifndef PAYLOAD_REF
 static cocls::async<Payload> final_coro(int who) {
     co_return Payload(who);
 }
+#endif
 
 static std::string pend_site(World &w, const std::string &name, bool resolver);
 
@@ -236,11 +251,13 @@ static J project(World &w) {
         // first atomic operation (the claiming exchange)
         for (auto &kv : w.rkind) {
             int t = w.tid[kv.first];
-            if (w.sched.parked(t) && !w.sched.pending_after(t) && w.sched.pending(t).op == op_t::xchg && w.sched.pending(t).obj != &(w.fut.*FProbe::slot_mp()))
+            auto op = w.sched.pending(t).op;
+            if (w.sched.parked(t) && !w.sched.pending_after(t) && (op == op_t::xchg || op == op_t::load || op == op_t::conv) && w.sched.pending(t).obj != &(w.fut.*FProbe::slot_mp()))
                 w.p_owner_addr = w.sched.pending(t).obj;
         }
     }
-    if (w.bind) owner = w.p_owner_addr ? (static_cast<const OwnerAtomic *>(w.p_owner_addr)->verif_peek() ? "fut" : "null") : "fut";
+    if (w.bind && w.bound_dead) owner = "null";
+    else if (w.bind) owner = w.p_owner_addr ? (static_cast<const OwnerAtomic *>(w.p_owner_addr)->verif_peek() ? "fut" : "null") : "fut";
     else if (w.p) owner = ((*w.p).*PProbe::owner_mp()).verif_peek() ? "fut" : "null";
     m.set("owner", owner);
     // learn node addresses from pending CAS operations
@@ -265,7 +282,11 @@ static J project(World &w) {
     auto st = w.fut.*FProbe::state_mp();
     using S = cocls::future_common::State;
     if (st == S::not_value) { m.set("tag", "none"); m.set("payload", "none"); }
+#ifdef PAYLOAD_REF
+    else if (st == S::value_ref) { m.set("tag", "val"); m.set("payload", w.payload_name(who_of(*(w.fut.*FProbe::ptr_mp())))); }
+#else
     else if (st == S::value) { m.set("tag", "val"); m.set("payload", w.payload_name(who_of(w.fut.*FProbe::value_mp()))); }
+#endif
     else if (st == S::exception) {
         m.set("tag", "exc");
         try { std::rethrow_exception(w.fut.*FProbe::exc_mp()); }
@@ -370,6 +391,7 @@ static void run_one(const Scenario &sc, Reporter &rep, Explore *ex) {
         cocls_verif::motable::get().label(&(w.fut.*FProbe::slot_mp()), sizeof(void *), "future.slot");
         cocls_verif::motable::get().label(w.p_owner_addr, sizeof(void *), "promise.owner");
     }
+#ifndef PAYLOAD_REF
     // bind form: the promise is moved into the closure returned by bind(args...) before the threads start; the value
     // resolver later just calls the closure.  Allocations made by bind() itself are the library's.
     auto make_bound = [&](int who) { return w.p->bind(Payload(who)); };
@@ -383,6 +405,7 @@ static void run_one(const Scenario &sc, Reporter &rep, Explore *ex) {
         w.allocs += alloc_stats::news - n0;
         w.p_owner_addr = nullptr;       // learned from the resolver's first pending operation
         w.call_bound = [&bound] { return (bool) (*bound)(); };
+        w.drop_bound = [&bound, pw = &w] { bound.reset(); pw->bound_dead = true; };
     }
     cocls::async<Payload> *fin = nullptr;
     std::optional<cocls::async<Payload>> fin_store;
@@ -391,6 +414,9 @@ static void run_one(const Scenario &sc, Reporter &rep, Explore *ex) {
         fin = &*fin_store;
         w.final_sp.reset(new cocls::suspend_point<bool>(fin->start(*w.p)));
     }
+#else
+    struct NoBound { void reset() {} explicit operator bool() const { return false; } } bound;
+#endif
     // future::value() on a no-value future calls pending() (a relaxed load of the slot) only to choose
     // between value_not_ready_exception and await_canceled_exception; the waiter's observation is in
     // the projection, so the load needs no scheduling point of its own.
@@ -409,7 +435,7 @@ static void run_one(const Scenario &sc, Reporter &rep, Explore *ex) {
             warm_thread();
             if (kind == "val") {
                 bool b;
-                { lib_scope s; if (w.bind) b = w.call_bound(); else if (form % 2 == 0) b = (*w.p)(who); else b = w.p->set_value(who); }
+                { lib_scope s; if (w.bind) b = w.call_bound(); else if (form % 2 == 0) b = (*w.p)(MAKE_ARG(who)); else b = w.p->set_value(MAKE_ARG(who)); }
                 w.rres[name] = b ? "true" : "false";
             } else if (kind == "exc") {
                 bool b;
@@ -437,8 +463,8 @@ static void run_one(const Scenario &sc, Reporter &rep, Explore *ex) {
             } else if (kind == "dtor") {
                 vsched::mark("dtor");
                 lib_scope s;
-                delete w.p;
-                w.p = nullptr;
+                if (w.bind) w.drop_bound();      // the closure returned by bind() dies (uncalled, or after its call)
+                else { delete w.p; w.p = nullptr; }
             } else if (kind == "final") {
                 lib_scope s;
                 w.final_sp.reset();   // releases the started coroutine: body runs here and completes
@@ -476,8 +502,14 @@ static void run_one(const Scenario &sc, Reporter &rep, Explore *ex) {
                 c.detach();
             } else if (kind == "bl") {
                 {
+                    // every blocking entry point: sync(), force_sync(), wait(), force_wait()
                     lib_scope s;
-                    w.fut.sync();
+                    switch (form % 4) {
+                        case 0: w.fut.sync(); break;
+                        case 1: w.fut.force_sync(); break;
+                        case 2: try { (void) w.fut.wait(); } catch (...) {} break;
+                        default: try { (void) w.fut.force_wait(); } catch (...) {} break;
+                    }
                 }
                 read_result(w, r);
                 r.resumes++;
